@@ -32,7 +32,11 @@ func genConc(r *vRng, tier string, w *bufio.Writer) {
 		cases = 40
 	}
 	for id := 0; id < cases; id++ {
-		fmt.Fprintf(w, "case %d conc preview=%d trig=%d frames=%d requesters=%d procs=%d\n", id, r.pick(0, 1, 1, 2), r.pick(1, 2),
+		preview, trig := r.pick(0, 1, 1, 2), r.pick(1, 2)
+		if id%6 == 1 {
+			preview, trig = 0, 2 // the smallest ring that must still give whole snapshots: two slots
+		}
+		fmt.Fprintf(w, "case %d conc preview=%d trig=%d frames=%d requesters=%d procs=%d\n", id, preview, trig,
 			r.pick(60, 150, 300), r.pick(1, 2, 4), r.pick(1, 2, 4, 16))
 		fmt.Fprintln(w, "go")
 	}
